@@ -110,16 +110,18 @@ theorem serialize_some {cfg : Cfg} {ord : List Key} {p : ℕ} {rs : List Region}
       o = ⟨p, hoist cfg ord (ds.map fun d => hoistable cfg d.mta), commonFrame ds,
            ds.map (dropGlobal (hoist cfg ord (ds.map fun d => hoistable cfg d.mta)))⟩ := by
   unfold serialize at h
-  split at h
-  · simp at h
-  · split at h
-    · simp at h
-    · simp at h
-    · rename_i ds hne hds
-      simp only [Except.ok.injEq, Option.some.injEq] at h
-      refine ⟨ds, hds, ?_, h.symm⟩
-      intro hnil
-      exact hne (by rw [hnil] at hds; exact hds)
+  by_cases hrs : rs = []
+  · simp [hrs] at h
+  · rw [if_neg hrs] at h
+    cases hc : collect (serializeRegion cfg) rs with
+    | error e => simp [hc] at h
+    | ok ds =>
+      rw [hc] at h
+      cases ds with
+      | nil => simp at h
+      | cons d ds' =>
+        simp only [Except.ok.injEq, Option.some.injEq] at h
+        exact ⟨d :: ds', rfl, by simp, h.symm⟩
 
 theorem commonFrame_map (f : WLine → WLine) (hf : ∀ d, (f d).frame = d.frame) (ds : List WLine) :
     commonFrame (ds.map f) = commonFrame ds := by
@@ -344,59 +346,70 @@ theorem region_roundtrip (cfg : Cfg) (sky : ℚ → ℚ) (p : ℕ) (g : Dict) (m
     intro hok
     have hri : get r'.mta .include = get rd.raw .include :=
       hmeta .include (by decide) (by decide) (fun _ => by decide)
-    rw [includeSense_of_get, includeSense_of_get, hri, raw_include hnd hraw, hdinc]
+    rw [includeSense_of_get, includeSense_of_get, hri, raw_include hnd hraw]
     unfold IncludeOK at hok
+    have hsense : ∀ n : Int, (match (if n = 0 ∨ n = 1 then some (PyVal.int n) else none) with
+        | some v => v.truthy
+        | none => true) = decide (n ≠ 0) := by
+      intro n
+      by_cases h0 : n = 0
+      · subst h0; simp [PyVal.truthy]
+      · by_cases h1 : n = 1
+        · subst h1; simp [PyVal.truthy]
+        · simp [h0, h1]
     cases hv : get r.mta .include with
     | none =>
-      simp only [hv] at hok ⊢
-      split <;> simp [PyVal.truthy]
+      have hdm : get d.mta .include = none := by rw [hdinc, hv]; split <;> rfl
+      rw [hdm]
+      split_ifs <;> simp [PyVal.truthy]
     | some v =>
-      simp only [hv] at hok ⊢
+      rw [hv] at hok
       cases v with
       | int n =>
         simp only at hok
         by_cases hci : cfg.includeInt = true
         · -- repaired: never hoisted, written as int
+          have hdm : get d.mta .include = some (.int n) := by rw [hdinc, hv, if_pos hci]; rfl
           have hng : Key.include ∉ keys g := fun hk =>
             include_not_hoistable cfg hci d.mta (hoist_key_mem hsound hk hmem)
-          simp only [if_neg hng, if_pos hci, Option.bind_some, pyInt]
-          rw [rawConv_include_int]
-          by_cases h0 : n = 0
-          · subst h0; simp [PyVal.truthy]
-          · by_cases h1 : n = 1
-            · subst h1; simp [PyVal.truthy]
-            · simp [h0, h1, PyVal.truthy]
-        · simp only [if_neg hci]
+          rw [hdm, if_neg hng]
+          simp only
+          rw [rawConv_include_int, hsense]
+          simp [PyVal.truthy]
+        · have hdm : get d.mta .include = some (.int n) := by rw [hdinc, hv, if_neg hci]
+          rw [hdm]
           by_cases hk : Key.include ∈ keys g
-          · simp only [if_pos hk, PyVal.truthy]
+          · rw [if_pos hk]
             rcases hok with h | h | h
             · exact absurd h hci
-            · simp [h]
+            · simp [PyVal.truthy, h]
             · simp [hk] at h
-          · simp only [if_neg hk]
-            rw [rawConv_include_int]
-            by_cases h0 : n = 0
-            · subst h0; simp [PyVal.truthy]
-            · by_cases h1 : n = 1
-              · subst h1; simp [PyVal.truthy]
-              · simp [h0, h1, PyVal.truthy]
+          · rw [if_neg hk]
+            simp only
+            rw [rawConv_include_int, hsense]
+            simp [PyVal.truthy]
       | bool b =>
         simp only at hok
         by_cases hci : cfg.includeInt = true
-        · have hng : Key.include ∉ keys g := fun hk =>
+        · have hdm : get d.mta .include = some (.int (if b then 1 else 0)) := by
+            rw [hdinc, hv, if_pos hci]; rfl
+          have hng : Key.include ∉ keys g := fun hk =>
             include_not_hoistable cfg hci d.mta (hoist_key_mem hsound hk hmem)
-          simp only [if_neg hng, if_pos hci, Option.bind_some, pyInt]
-          rw [rawConv_include_int]
+          rw [hdm, if_neg hng]
+          simp only
+          rw [rawConv_include_int, hsense]
           cases b <;> simp [PyVal.truthy]
         · have hb : b = true := by
             rcases hok with h | h
             · exact absurd h hci
             · exact h
           subst hb
-          simp only [if_neg hci]
+          have hdm : get d.mta .include = some (.bool true) := by rw [hdinc, hv, if_neg hci]
+          rw [hdm]
           by_cases hk : Key.include ∈ keys g
-          · simp [hk, PyVal.truthy]
-          · simp only [if_neg hk]
+          · rw [if_pos hk]; simp [PyVal.truthy]
+          · rw [if_neg hk]
+            simp only
             rw [rawConv_include_bool]
             simp [PyVal.truthy]
       | flt q s => exact absurd hok (by simp)
